@@ -114,4 +114,217 @@ theorem monos_facts {one : Nat} : ∀ {s : NExp}, isPoly one s = true →
     exact ⟨by simp [monos, sumL, phi_mono hm], by simp [monos, hm], by simp [monos, lastMono], by simp [monos]⟩
   | suc a _ => intro h; simp [isPoly, isMono, isBody] at h
 
+theorem coeff_sumL_none (k : ℕ →₀ ℕ) (l : List NExp) (h : ∀ m ∈ l, kB m ≠ k) : coeff k (sumL l) = 0 := by
+  induction l with
+  | nil => simp [sumL]
+  | cons a l ih =>
+    have : sumL (a :: l) = monomial (kB a) (cf a) + sumL l := by simp [sumL]
+    rw [this, coeff_add, coeff_monomial, if_neg (h a (by simp)), ih (fun m hm => h m (by simp [hm]))]
+    simp
+
+theorem coeff_sumL_one (l : List NExp) (hd : l.Pairwise (fun a b => kB a ≠ kB b)) (m0 : NExp) (hm : m0 ∈ l) :
+    coeff (kB m0) (sumL l) = cf m0 := by
+  induction l with
+  | nil => cases hm
+  | cons a l ih =>
+    have hs : sumL (a :: l) = monomial (kB a) (cf a) + sumL l := by simp [sumL]
+    have hp := List.pairwise_cons.1 hd
+    rw [hs, coeff_add, coeff_monomial]
+    rcases List.mem_cons.1 hm with rfl | hm'
+    · rw [if_pos rfl, coeff_sumL_none _ l (fun m hm2 e => hp.1 m hm2 e.symm)]; simp
+    · rw [if_neg (hp.1 m0 hm'), ih hp.2 hm']; simp
+
+theorem wfS_dest (sh : Nat → Shape) (m : NExp) (h : wfS sh m = true) : wfS sh (destMonomial m) = true := by
+  unfold destMonomial; split <;> simp_all [wfS]
+
+theorem wfS_monos (sh : Nat → Shape) : ∀ (s : NExp), wfS sh s = true → ∀ m ∈ monos s, wfS sh m = true := by
+  intro s
+  induction s with
+  | add p m ihp _ =>
+    intro h x hx
+    simp only [wfS, Bool.and_eq_true] at h
+    simp only [monos, List.mem_append, List.mem_singleton] at hx
+    rcases hx with hx | rfl
+    · exact ihp h.1 x hx
+    · exact h.2
+  | atom i s => intro h x hx; simp only [monos, List.mem_singleton] at hx; subst hx; exact h
+  | num n => intro h x hx; simp only [monos, List.mem_singleton] at hx; subst hx; exact h
+  | mul a b _ _ => intro h x hx; simp only [monos, List.mem_singleton] at hx; subst hx; exact h
+  | suc a _ => intro h x hx; simp only [monos, List.mem_singleton] at hx; subst hx; exact h
+
+theorem fastCmp_self (one : Nat) (x : NExp) : fastCmp one x x = .eq := by
+  have := fastCmp_swap one x x
+  cases h : fastCmp one x x <;> simp [h, Ordering.swap] at this ⊢
+
+theorem kB_inj {one : Nat} {sh : Nat → Shape} {a b : NExp} (ha : isMono one a = true) (hb : isMono one b = true)
+    (wa : wfS sh a = true) (wb : wfS sh b = true) (h : kB a = kB b) : destMonomial a = destMonomial b := by
+  unfold kB at h
+  rcases (isMono_dest ha).1 with ea | ea <;> rcases (isMono_dest hb).1 with eb | eb
+  · rw [ea, eb]
+  · exfalso; rw [ea] at h; exact fsB_ne_zero eb (by simpa [fsB] using h.symm)
+  · exfalso; rw [eb] at h; exact fsB_ne_zero ea (by simpa [fsB] using h)
+  · exact fsB_inj ea eb (wfS_dest sh a wa) (wfS_dest sh b wb) h
+
+theorem kB_ne_of_lt {one : Nat} {sh : Nat → Shape} {a b : NExp} (ha : isMono one a = true) (hb : isMono one b = true)
+    (wa : wfS sh a = true) (wb : wfS sh b = true) (h : compareMonomial one a b = .lt) : kB a ≠ kB b := by
+  intro e
+  have := kB_inj ha hb wa wb e
+  unfold compareMonomial at h
+  rw [this, fastCmp_self] at h
+  cases h
+
+theorem mono_eq {one : Nat} {a b : NExp} (ha : isMono one a = true) (hb : isMono one b = true)
+    (hd : destMonomial a = destMonomial b) (hc : cf a = cf b) : a = b := by
+  have e1 := (isMono_dest ha).2.2.2
+  have e2 := (isMono_dest hb).2.2.2
+  have : (coeffForm a).2 = (coeffForm b).2 := by simpa [cf] using hc
+  rw [e1, e2, hd, this]
+
+theorem cf_pos {one : Nat} {a : NExp} (ha : isMono one a = true) : cf a ≠ 0 := by
+  have := (isMono_dest ha).2.2.1
+  simp only [cf]; omega
+
+/-- every monomial of `s` is a monomial of `t` when the two trees stand for the same polynomial -/
+theorem monos_subset {one : Nat} {sh : Nat → Shape} {s t : NExp} (hs : isPoly one s = true)
+    (ht : isPoly one t = true) (ws : wfS sh s = true) (wt : wfS sh t = true) (h : phi s = phi t) :
+    ∀ m ∈ monos s, m ∈ monos t := by
+  obtain ⟨s1, s2, _, s4⟩ := monos_facts hs
+  obtain ⟨t1, t2, _, t4⟩ := monos_facts ht
+  have ds : (monos s).Pairwise (fun a b => kB a ≠ kB b) := by
+    refine List.Pairwise.imp_of_mem ?_ s4
+    intro a b ha hb hab
+    exact kB_ne_of_lt (s2 a ha) (s2 b hb) (wfS_monos sh s ws a ha) (wfS_monos sh s ws b hb) hab
+  have dt : (monos t).Pairwise (fun a b => kB a ≠ kB b) := by
+    refine List.Pairwise.imp_of_mem ?_ t4
+    intro a b ha hb hab
+    exact kB_ne_of_lt (t2 a ha) (t2 b hb) (wfS_monos sh t wt a ha) (wfS_monos sh t wt b hb) hab
+  intro m hm
+  have c1 : coeff (kB m) (phi t) = cf m := by rw [← h, s1]; exact coeff_sumL_one _ ds m hm
+  by_cases hex : ∃ m' ∈ monos t, kB m' = kB m
+  · obtain ⟨m', hm', hk⟩ := hex
+    have c2 : coeff (kB m') (phi t) = cf m' := by rw [t1]; exact coeff_sumL_one _ dt m' hm'
+    rw [hk, c1] at c2
+    have hd := kB_inj (t2 m' hm') (s2 m hm) (wfS_monos sh t wt m' hm') (wfS_monos sh s ws m hm) hk
+    have : m' = m := mono_eq (t2 m' hm') (s2 m hm) hd c2.symm
+    rw [← this]; exact hm'
+  · exfalso
+    have : coeff (kB m) (phi t) = 0 := by
+      rw [t1]; exact coeff_sumL_none _ _ (fun m' hm' e => hex ⟨m', hm', e⟩)
+    rw [c1] at this
+    exact cf_pos (s2 m hm) this
+
+/-- lists that are pairwise related by an asymmetric relation and have the same members are equal -/
+theorem pairwise_ext {α : Type} {R : α → α → Prop} (hasym : ∀ a b, R a b → ¬ R b a) :
+    ∀ (l1 l2 : List α), l1.Pairwise R → l2.Pairwise R → (∀ x, x ∈ l1 ↔ x ∈ l2) → l1 = l2 := by
+  intro l1
+  induction l1 with
+  | nil =>
+    intro l2 _ _ hm
+    cases l2 with
+    | nil => rfl
+    | cons b l2 => exact absurd ((hm b).2 (by simp)) (by simp)
+  | cons a l1 ih =>
+    intro l2 h1 h2 hm
+    cases l2 with
+    | nil => exact absurd ((hm a).1 (by simp)) (by simp)
+    | cons b l2 =>
+      have h1' := List.pairwise_cons.1 h1
+      have h2' := List.pairwise_cons.1 h2
+      have hab : a = b := by
+        have ha : a ∈ b :: l2 := (hm a).1 (by simp)
+        have hb : b ∈ a :: l1 := (hm b).2 (by simp)
+        rcases List.mem_cons.1 ha with e | ha
+        · exact e
+        · rcases List.mem_cons.1 hb with e | hb
+          · exact e.symm
+          · exact absurd (h1'.1 b hb) (hasym _ _ (h2'.1 a ha))
+      subst hab
+      congr 1
+      apply ih l2 h1'.2 h2'.2
+      intro x
+      constructor
+      · intro hx
+        rcases List.mem_cons.1 ((hm x).1 (by simp [hx])) with e | hx2
+        · subst e; exact absurd (h1'.1 x hx) (hasym _ _ (h1'.1 x hx) |> fun f => fun g => f g)
+        · exact hx2
+      · intro hx
+        rcases List.mem_cons.1 ((hm x).2 (by simp [hx])) with e | hx2
+        · subst e; exact absurd (h2'.1 x hx) (hasym _ _ (h2'.1 x hx) |> fun f => fun g => f g)
+        · exact hx2
+
+theorem monos_ne_nil (s : NExp) : monos s ≠ [] := by
+  cases s <;> simp [monos]
+
+theorem monos_inj : ∀ (s t : NExp), monos s = monos t → s = t := by
+  intro s
+  induction s with
+  | add p m ihp _ =>
+    intro t h
+    cases t with
+    | add p' m' =>
+      simp only [monos] at h
+      have := List.append_inj' h rfl
+      rw [ihp p' this.1]
+      simp at this
+      rw [this.2]
+    | _ =>
+      simp only [monos] at h
+      have := congrArg List.length h
+      have hl := List.length_pos_of_ne_nil (monos_ne_nil p)
+      simp only [List.length_append, List.length_singleton, List.length_cons, List.length_nil] at this
+      omega
+  | atom i s =>
+    intro t h
+    cases t with
+    | add p' m' =>
+      simp only [monos] at h
+      have := congrArg List.length h
+      have hl := List.length_pos_of_ne_nil (monos_ne_nil p')
+      simp only [List.length_append, List.length_singleton, List.length_cons, List.length_nil] at this
+      omega
+    | _ => simpa [monos] using h
+  | num n =>
+    intro t h
+    cases t with
+    | add p' m' =>
+      simp only [monos] at h
+      have := congrArg List.length h
+      have hl := List.length_pos_of_ne_nil (monos_ne_nil p')
+      simp only [List.length_append, List.length_singleton, List.length_cons, List.length_nil] at this
+      omega
+    | _ => simpa [monos] using h
+  | mul a b _ _ =>
+    intro t h
+    cases t with
+    | add p' m' =>
+      simp only [monos] at h
+      have := congrArg List.length h
+      have hl := List.length_pos_of_ne_nil (monos_ne_nil p')
+      simp only [List.length_append, List.length_singleton, List.length_cons, List.length_nil] at this
+      omega
+    | _ => simpa [monos] using h
+  | suc a _ =>
+    intro t h
+    cases t with
+    | add p' m' =>
+      simp only [monos] at h
+      have := congrArg List.length h
+      have hl := List.length_pos_of_ne_nil (monos_ne_nil p')
+      simp only [List.length_append, List.length_singleton, List.length_cons, List.length_nil] at this
+      omega
+    | _ => simpa [monos] using h
+
+/-- Two polynomial-shaped trees that stand for the same polynomial are the same tree. -/
+theorem poly_tree_inj {one : Nat} {sh : Nat → Shape} {s t : NExp} (hs : isPoly one s = true)
+    (ht : isPoly one t = true) (ws : wfS sh s = true) (wt : wfS sh t = true) (h : phi s = phi t) : s = t := by
+  apply monos_inj
+  refine pairwise_ext (R := fun a b => compareMonomial one a b = .lt) ?_ _ _
+    (monos_facts hs).2.2.2 (monos_facts ht).2.2.2 ?_
+  · intro a b hab hba
+    have := (fastCmp_lt_iff one _ _).1 hab
+    unfold compareMonomial at hba
+    rw [this] at hba; cases hba
+  · intro x
+    exact ⟨monos_subset hs ht ws wt h x, monos_subset ht hs wt ws h.symm x⟩
+
 end Holpy.C10
